@@ -12,6 +12,7 @@ import logging
 from lib.framework import Check
 from lib.pool import run_cases
 from harness import c02_gen as G
+from harness import c02_struct as S
 
 
 import re as _re
@@ -232,7 +233,79 @@ class C02(Check):
 
     def run(self, ctx):
         ctx.phase(self.corr_normalize, ctx)
+        ctx.phase(self.corr_struct, ctx)
         ctx.phase(self.oracle, ctx)
+
+    # -- structure level: spelled sheets --------------------------------------------------------------
+    def corr_struct(self, ctx):
+        """abstract sheet x structure-level spelling: (1) the tokens Lean's `render` gives = the tokens of the real
+        tokenizer on the text, (2) model projection of the parse of those tokens = the abstract sheet (the theorem,
+        replayed on real tokens), (3) = the projection of the real DOM (tie of the kernel and of `projSheet`)"""
+        import random
+        rng = ctx.sub_rng('c02-struct')
+        cases = []
+        for i in range(ctx.n(400, 8000)):
+            ast = S.supported(G.gen_sheet(rng))
+            if not ast:
+                continue
+            for level, inner in ((0, 0), (1, 1), (2, 2), (3, 3), (3, 4))[:ctx.n(5, 5)]:
+                seed = rng.getrandbits(32)
+                ss = S.spell_sheet(ast, random.Random(seed), level, inner)
+                if not S.wellformed(ss):
+                    ctx.count('struct-not-core')
+                    continue
+                cases.append((ast, level, seed, ss))
+        self.struct_cases(ctx, cases)
+
+    def struct_cases(self, ctx, cases):
+        from lib.framework import enc
+        import json
+        texts = [S.text(ss) for _, _, _, ss in cases]
+        toklists = [S.tokenize(t) for t in texts]
+        lines = []
+        for (_, _, _, ss), toks in zip(cases, toklists):
+            x = S.sx(ss)
+            lines.append('spelled ' + x)
+            lines.append('erase ' + x)
+            lines.append('struct ' + (','.join('%s:%s' % (t[0], enc(t[1])) for t in toks) or '-'))
+        out = ctx.driver(lines) if ctx.model_ok else [None] * len(lines)
+        for idx, ((ast, level, seed, ss), text, toks) in enumerate(zip(cases, texts, toklists)):
+            rendered, erased, struct = out[3 * idx: 3 * idx + 3]
+            ctx.case(key=('struct', text), nontrivial=level > 0, kind='struct-l%d' % level,
+                     sample={'text': text[:300]} if idx < 3 else None)
+            want = S.erase(ss)
+            real = real_struct(text)
+            if isinstance(real, tuple):
+                ctx.violate('parsing a well-formed sheet returns a DOM', {'text': text}, {'exception': real[1]})
+                continue
+            if rendered is None:
+                continue
+            inp = {'text': text, 'level': level}
+            real_toks = ','.join('%s:%s' % (S.mtype(t[0]), enc(t[1])) for t in toks) or '-'
+            if rendered != real_toks:
+                ctx.disagree('render(spelled sheet) vs tokenizer(text)', inp, real_toks[:400], rendered[:400])
+                continue
+            if not erased.startswith('[') or json.loads(erased) != want:
+                ctx.disagree('erase(spelled sheet)', inp, want, erased[:400])
+                continue
+            if not struct.startswith('['):
+                ctx.disagree('projSheet(parseSheet tokens)', inp, want, struct[:400])
+                continue
+            model = json.loads(struct)
+            got = model_abstract(model, toks)
+            if got != want:
+                # the theorem says these are equal; on real tokens they are not: the text is not what the
+                # abstract sheet says, or the model/driver is wrong
+                ctx.disagree('projSheet(parseSheet(tokenize text)) vs abstract sheet', inp, first_diff(got, want), None)
+                continue
+            mp = model_dom(model, toks)
+            if mp != real:
+                # model and implementation differ on a well-formed sheet whose model parse IS the abstract sheet:
+                # the implementation does not build what the source denotes
+                ctx.violate('the DOM lists, in source order, exactly the rules that were written, each with the '
+                            'selectors and declarations (name, value, priority) of the source',
+                            {'text': text, 'canonical': S.text(S.spell_sheet(ast, __import__('random').Random(0), 0, 0))},
+                            {'first_difference': first_diff(real, mp)})
 
     def corr_normalize(self, ctx):
         from cssutils import helper
@@ -331,6 +404,148 @@ class C02(Check):
                 ctx.violate(data.get('clause'), w, {'projections': a})
         else:
             self.run(ctx)
+
+
+def _cu():
+    import cssutils
+    cssutils.log.setLevel(logging.FATAL)
+    cssutils.log.raiseExceptions = False
+    return cssutils
+
+
+def _sel_items(sel):
+    def val(v):
+        if isinstance(v, str):
+            return v
+        if isinstance(v, tuple):
+            return '|'.join(map(str, v))
+        return getattr(v, 'cssText', repr(type(v)))
+    return [[i.type, val(i.value)] for i in sel.seq]
+
+
+def _sel_proj(sel):
+    """comment- and white-space-insensitive view of a Selector (items + specificity)"""
+    items, spec = proj_selector(sel)
+    return [[list(x) if isinstance(x, tuple) else x for x in it] for it in items] + [list(spec)]
+
+
+def _real_items(style):
+    css = _cu().css
+    out = []
+    for item in style.seq:
+        v = item.value
+        if isinstance(v, css.Property):
+            out.append(['decl', v.name, norm_text(v.propertyValue.cssText), v.priority])
+        elif isinstance(v, css.CSSComment):
+            out.append(['comment', v.cssText[2:-2]])
+        elif isinstance(v, css.CSSUnknownRule):
+            out.append(['unknown', v.cssText])
+        else:
+            out.append(['other', repr(type(v))])
+    return out
+
+
+def _real_rules(rules):
+    out = []
+    for r in rules:
+        t = r.type
+        if t == r.STYLE_RULE:
+            out.append(['style', [_sel_proj(s) for s in r.selectorList], _real_items(r.style)])
+        elif t == r.COMMENT:
+            out.append(['comment', r.cssText[2:-2]])
+        elif t == r.UNKNOWN_RULE:
+            out.append(['unknown', r.cssText])
+        else:
+            out.append(['other', t])
+    return out
+
+
+def real_struct(text):
+    """structure-level projection of parseString(text), or ('RAISE', message)"""
+    from lib.framework import time_limit, TimeLimit
+    c = _cu()
+    try:
+        with time_limit(30):
+            sheet = c.CSSParser(fetcher=lambda url: None).parseString(text)
+    except TimeLimit:
+        raise
+    except Exception as e:
+        return ('RAISE', '%s: %s' % (type(e).__name__, e))
+    return _real_rules(sheet.cssRules)
+
+
+def model_abstract(model, toks):
+    """driver reply of `struct` with token positions replaced by [TYPE, hex value]"""
+    from lib.framework import enc
+
+    def tl(ps):
+        return [[S.mtype(toks[p][0]), enc(toks[p][1])] for p in ps]
+
+    def item(i):
+        if i['k'] == 'decl':
+            return {'k': 'decl', 'name': i['name'], 'value': tl(i['value']), 'prio': i['prio']}
+        if i['k'] == 'unknown':
+            return {'k': 'unknown', 'toks': tl(i['toks'])}
+        return i
+
+    out = []
+    for r in model:
+        if r['k'] == 'style':
+            out.append({'k': 'style', 'sels': [tl(g) for g in r['sels']], 'items': [item(i) for i in r['items']]})
+        elif r['k'] == 'unknown':
+            out.append({'k': 'unknown', 'toks': tl(r['toks'])})
+        else:
+            out.append(r)
+    return out
+
+
+def model_dom(model, toks):
+    """the model's projection in the shape of `real_struct`: the opaque token lists the model shows are given to
+    the REAL sub-parsers (Selector, PropertyValue, CSSUnknownRule), so a difference can only come from the
+    structure level"""
+    from lib.framework import dec
+    css = _cu().css
+
+    def tl(ps):
+        # the comment-free lists of the projection can have two S tokens in a row, which the tokenizer never
+        # produces and the sub-parsers are not written for: merged here
+        out = []
+        for p in ps:
+            if toks[p][0] == 'S' and out and out[-1][0] == 'S':
+                continue
+            out.append(toks[p])
+        return out
+
+    def items(its):
+        out = []
+        for i in its:
+            if i['k'] == 'decl':
+                pv = css.PropertyValue()
+                pv.cssText = tl(i['value'])
+                out.append(['decl', dec(i['name']), norm_text(pv.cssText) if pv.wellformed else None,
+                            dec(i['prio']) if i['prio'] is not None else ''])
+            elif i['k'] == 'comment':
+                out.append(['comment', dec(i['body'])])
+            elif i['k'] == 'unknown':
+                out.append(['unknown', css.CSSUnknownRule(cssText=tl(i['toks'])).cssText])
+        return out
+
+    out = []
+    for r in model:
+        k = r['k']
+        if k == 'style':
+            sels = []
+            for g in r['sels']:
+                sel = css.Selector(selectorText=(tl(g), {}))
+                sels.append(_sel_proj(sel) if sel.wellformed else None)
+            out.append(['style', sels, items(r['items'])])
+        elif k == 'comment':
+            out.append(['comment', dec(r['body'])])
+        elif k == 'unknown':
+            out.append(['unknown', css.CSSUnknownRule(cssText=tl(r['toks'])).cssText])
+        else:
+            out.append(['other', r.get('kind')])
+    return out
 
 
 def first_diff(a, b, path=''):
